@@ -7,6 +7,7 @@ CONSTANTS
   Acts = {"Alloc", "Unroot", "Spawn", "Collect", "Push", "Pop", "RootTop", "Cell", "Chan", "HostMove", "NewVM", "DropVM"}
   TwoVMs = TRUE
   Emit = TRUE
+  Traps = {}
   Mutant = "none"
 INVARIANTS EmitWalk Isolation NoDangling
 CHECK_DEADLOCK FALSE
